@@ -2,6 +2,7 @@ SPECIFICATION Spec
 CONSTANTS
   MaxLen = 8
   MaxOps = 5
+  Kinds = {"d", "h"}
   HistOn = TRUE
 VIEW ViewNoHist
 INVARIANTS RootsBinary WitnessesVerify AddWitnessVerifies TamperRejected RefsStored RecoverSame
